@@ -969,6 +969,10 @@ func corpus() []plan {
 		{kind: "corpus-tombstone-value", fixed: []interface{}{
 			T(func(ns []byte) Txn { return shapeCreate(K(ns, "a"), []byte("tombstone")) }),
 			R(func(ns []byte) Rng { return Rng{Key: K(ns, "a")} }), all}},
+		{kind: "corpus-empty-value", fixed: []interface{}{
+			T(func(ns []byte) Txn { return shapeCreate(K(ns, "a"), nil) }),
+			R(func(ns []byte) Rng { return Rng{Key: K(ns, "a")} }),
+			T(func(ns []byte) Txn { return shapeUpdate(K(ns, "a"), []byte{}, 0) }), all}},
 		{kind: "corpus-recreate-after-delete", watch: true, fixed: []interface{}{
 			T(func(ns []byte) Txn { return shapeCreate(K(ns, "a"), []byte("1")) }),
 			T(func(ns []byte) Txn { return shapeDeleteU(K(ns, "a")) }),
@@ -1017,6 +1021,12 @@ func main() {
 		runHistory(s, w, idx, rnd.Fork(), plan{kind: "mutated-txn", nOps: 1 + rnd.Intn(5), mutated: true})
 		idx++
 	}
+	// late corpus: by now revision 1888 is a past revision, so a List at it is an ordinary paginated read for etcd
+	runHistory(s, w, idx, rnd.Fork(), plan{kind: "corpus-F7-partition-magic", fixed: []interface{}{
+		func(ns []byte) Txn { return shapeCreate(K(ns, "a"), []byte("1")) },
+		func(ns []byte) Rng { return Rng{Key: ns, End: prefixEnd(ns), Rev: 1888} },
+		func(ns []byte) Rng { return Rng{Key: ns, End: prefixEnd(ns), Rev: 1887} }}})
+	idx++
 	if err := w.Finish("histories of the Kubernetes shapes over 3-5 keys per private key space (expected revision correct/stale/zero), reads with sub-ranges, limits and seen revisions, one prefix watch per supported history (every third with a second watch from a seen revision); mutated transactions = one structural mutation of a supported shape after a short supported prefix; distinct = SHA-256 of the Coq case; trivial = fewer than 2 steps"); err != nil {
 		fmt.Fprintln(os.Stderr, err)
 		os.Exit(2)
